@@ -281,6 +281,8 @@ def run(report, p):
                     deps = {canon_dep(t.ast, l) for t, l in g.control_deps(g.node_for(call)) if t.kind == "test"}
                     if (sp.params[1], "T") not in deps:  # truthiness: a non-empty list (an `is not None` test would admit [])
                         all_guaranteed = False
+        if not any(any(".MHLIgnoreSpec._append" in t for t in tg) for call, tg in p.calls[sp.qual]):
+            raise AnalysisError("MHLIgnoreSpec.set_patterns: no call of an append helper of the spec found (helpers renamed or inlined?); the non-empty lemma cannot be evaluated on this shape")
         path = g.find_path(g.entry, {g.exit.id}, avoid=adders)
         ok = ok and path is None and len(adders) >= 1 and all_guaranteed
         dfl = p.funcs.get("ascmhl.ignore.default_ignore_list")
